@@ -60,7 +60,7 @@ func load() {
 }
 
 // Reset rewinds the replay cursor (used by the generated test wrapper).
-func Reset() { loaded = false; ip, cp, dp = 0, 0, 0; Failed = nil; load() }
+func Reset() { clockIsExact = false; loaded = false; ip, cp, dp = 0, 0, 0; Failed = nil; load() }
 
 func next(t string) string {
 	load()
@@ -379,10 +379,16 @@ func LocksetEnd()             {}
 // The closures must not write variables they share by capture. Natively the two closures
 // run concurrently (the replay binary is built with -race when the harness file carries a
 // `//vf:race` line) so that the race detector confirms the finding.
+// RaceRounds: number of native rounds of the NEXT RacePair (reset to 400 afterwards);
+// lower it for pairs whose operations take seconds natively.
+var RaceRounds = 400
+
 func RacePair(label string, a, b func()) {
 	// many rounds: the race detector keeps only a few recent accesses per memory word and
 	// evicts at random, so a single round can miss an unordered pair
-	for i := 0; i < 400; i++ {
+	rounds := RaceRounds
+	RaceRounds = 400
+	for i := 0; i < rounds; i++ {
 		var wg sync.WaitGroup
 		start := make(chan struct{})
 		wg.Add(2)
@@ -445,7 +451,23 @@ func UnzipModel(in []byte) ([]byte, error) {
 }
 
 // ClockNow returns a virtual, non-decreasing clock value (milliseconds).
+// ClockStart sets the virtual clock (ms); later ClockNow readings are >= it.
+func ClockStart(ms int64) { clockNow = ms }
+
+// ClockExact: deterministic virtual clock starting at ms: under the executor every
+// time.Sleep advances it by exactly its duration and every reading by 1 ms; natively it is
+// ms + the real time elapsed since this call (sleeps really sleep).
+func ClockExact(ms int64) { clockNow = ms; clockReal = time.Now(); clockIsExact = true }
+
+var (
+	clockReal    time.Time
+	clockIsExact bool
+)
+
 func ClockNow() int64 {
+	if clockIsExact {
+		return clockNow + time.Since(clockReal).Milliseconds()
+	}
 	d := int64(nextU("clk"))
 	clockNow += d
 	return clockNow
